@@ -1440,4 +1440,155 @@ example : oNode.Nodup ∧ oNode.getLast? = some (rootNode gNode 0)
   have hw : WF gNode (rank gNode) := wf_sound (by decide)
   exact ⟨order_nodup hb ho, root_last hb ho, fun n hn hr => ref_flagged hb ho hn hr, edges_acyclic hw hb⟩
 
+/-! ## 11. The hypotheses are needed -/
+
+/-- `class Head: x: Union[None, LNode]`, `class LNode: x: Union[None, LNode]` with the union (id 1) judged a
+    stdlib type although it contains the class `LNode` — what `isstdlibtype` answered before 612940b (None
+    first) and before f6f9920 (a union behind an alias): 0 = Head, 1 = the union, 2 = LNode, 3 = NoneType. -/
+def gBadStd : TyGraph :=
+  { tys := [ti true false 0 true [(some ['x'], 1)], ti false true 1 false [(none, 3), (none, 2)],
+            ti true false 2 true [(some ['x'], 1)], ti true true 3 true []] }
+
+/-- Without `stdClosed` (members of stdlib types are stdlib types) `edges_acyclic` fails: the revisited union is
+    not flagged, merges with its first occurrence and becomes its own ancestor; graphlib raises CycleError. -/
+theorem stdClosed_needed : wf gBadStd = false ∧
+    ∃ adds, build gBadStd 0 8 = some adds ∧ staticOrder adds = none ∧
+      Relation.TransGen (Edge adds) (N 1 1 (some ['x']) false false) (N 1 1 (some ['x']) false false) := by
+  refine ⟨by decide, _, rfl, by decide, ?_⟩
+  apply Relation.TransGen.tail (b := N 2 2 none false false)
+  · exact Relation.TransGen.single ⟨(N 2 2 none false false, [N 1 1 (some ['x']) false false]), by decide, rfl, by decide⟩
+  · exact ⟨(N 1 1 (some ['x']) false false, [N 3 3 none false false, N 2 2 none false false]), by decide, rfl, by decide⟩
+
+/-! ## 12. Spelling invariance of the root (NewType / value alias vs. the type it stands for) -/
+
+/-- Two `visited` sets that answer `is_visited` alike. -/
+def SeenEq (g : TyGraph) (v1 v2 : List Nat) : Prop := ∀ c, seen g v1 c = seen g v2 c
+
+theorem seen_iff {vis : List Nat} {c : Nat} : seen g vis c = true ↔ c ∈ vis ∨ g.unw c ∈ vis := by
+  simp [seen]
+
+theorem seenEq_of_iff {v1 v2 : List Nat} (h : ∀ c, (c ∈ v1 ∨ g.unw c ∈ v1) ↔ (c ∈ v2 ∨ g.unw c ∈ v2)) :
+    SeenEq g v1 v2 := by
+  intro c
+  rw [Bool.eq_iff_iff, seen_iff, seen_iff]
+  exact h c
+
+theorem seenEq_append {v1 v2 : List Nat} (h : SeenEq g v1 v2) (l : List Nat) : SeenEq g (v1 ++ l) (v2 ++ l) := by
+  intro c
+  have := h c
+  rw [Bool.eq_iff_iff, seen_iff, seen_iff] at this
+  rw [Bool.eq_iff_iff, seen_iff, seen_iff]
+  simp only [List.mem_append]
+  constructor
+  · rintro ((h1 | h1) | (h1 | h1))
+    · rcases this.1 (Or.inl h1) with h2 | h2
+      · exact Or.inl (Or.inl h2)
+      · exact Or.inr (Or.inl h2)
+    · exact Or.inl (Or.inr h1)
+    · rcases this.1 (Or.inr h1) with h2 | h2
+      · exact Or.inl (Or.inl h2)
+      · exact Or.inr (Or.inl h2)
+    · exact Or.inr (Or.inr h1)
+  · rintro ((h1 | h1) | (h1 | h1))
+    · rcases this.2 (Or.inl h1) with h2 | h2
+      · exact Or.inl (Or.inl h2)
+      · exact Or.inr (Or.inl h2)
+    · exact Or.inl (Or.inr h1)
+    · rcases this.2 (Or.inr h1) with h2 | h2
+      · exact Or.inl (Or.inl h2)
+      · exact Or.inr (Or.inl h2)
+    · exact Or.inr (Or.inr h1)
+
+/-- The inner loop depends on `visited` only through `is_visited`. -/
+theorem expand_seenEq (ks : List (Option Str × Nat)) : ∀ v1 v2 : List Nat, SeenEq g v1 v2 →
+    (expand g v1 ks).preds = (expand g v2 ks).preds ∧ (expand g v1 ks).pushed = (expand g v2 ks).pushed ∧
+      SeenEq g (expand g v1 ks).vis (expand g v2 ks).vis := by
+  induction ks with
+  | nil => intro v1 v2 h; simp [expand_nil, h]
+  | cons k rest ih =>
+    obtain ⟨v, c⟩ := k
+    intro v1 v2 h
+    have hc := h c
+    cases h1 : (seen g v1 c && g.cuttable c) with
+    | true =>
+      have h2 : (seen g v2 c && g.cuttable c) = true := by rw [← hc]; exact h1
+      rw [expand_cons_ref h1, expand_cons_ref h2]
+      obtain ⟨i1, i2, i3⟩ := ih v1 v2 h
+      exact ⟨by simp [i1], i2, i3⟩
+    | false =>
+      have h2 : (seen g v2 c && g.cuttable c) = false := by rw [← hc]; exact h1
+      rw [expand_cons_plain h1, expand_cons_plain h2]
+      obtain ⟨i1, i2, i3⟩ := ih _ _ (seenEq_append h [c, g.unw c])
+      exact ⟨by simp [i1, hc], by simp [i2, hc], i3⟩
+
+theorem run_sim : ∀ (fuel : Nat) (s1 s2 : State), SeenEq g s1.vis s2.vis → s1.queue = s2.queue →
+    ∀ r1, run g fuel s1 = some r1 →
+      ∃ r2 X, run g fuel s2 = some r2 ∧ r1.adds = s1.adds ++ X ∧ r2.adds = s2.adds ++ X := by
+  intro fuel
+  induction fuel with
+  | zero =>
+    intro s1 s2 _ hq r1 h
+    simp only [run] at h ⊢
+    rw [← hq]
+    split at h
+    · next hq1 => cases h; exact ⟨s2, [], by simp⟩
+    · cases h
+  | succ f ih =>
+    intro s1 s2 hv hq r1 h
+    simp only [run] at h ⊢
+    rw [← hq]
+    split at h
+    · next hq1 => cases h; exact ⟨s2, [], by simp⟩
+    · next p rest hq1 =>
+      obtain ⟨e1, e2, e3⟩ := expand_seenEq (g.kids p.ty) s1.vis s2.vis hv
+      obtain ⟨r2, X, hr2, ha1, ha2⟩ := ih (stepWith g s1 p rest) (stepWith g s2 p rest)
+        (by simpa using e3) (by simp [e2]) r1 h
+      refine ⟨r2, (p, (expand g s1.vis (g.kids p.ty)).preds) :: X, by simpa [hq1] using hr2, ?_, ?_⟩
+      · simpa using ha1
+      · rw [ha2]; simp [e1]
+
+/-- A root given through a NewType / value alias `r` and the type `unwrap(r)` it stands for produce the same
+    `graph.add` calls, the label of the root node apart (so the same sequences, up to that label). -/
+theorem alias_root_same_graph (hidem : ∀ t, g.unw (g.unw t) = g.unw t) {r fuel : Nat} {adds : Adds}
+    (hk : g.kids (g.unw r) = g.kids r) (hb : build g r fuel = some adds) :
+    ∃ P X, adds = (rootNode g r, P) :: X ∧ build g (g.unw r) fuel = some ((rootNode g (g.unw r), P) :: X) := by
+  obtain ⟨s, hs, rfl⟩ := build_some hb
+  cases fuel with
+  | zero => simp [run, init] at hs
+  | succ f =>
+    have hseen : SeenEq g [r, g.unw r] [g.unw r, g.unw (g.unw r)] := by
+      apply seenEq_of_iff
+      intro c
+      simp only [List.mem_cons, List.not_mem_nil, or_false, hidem]
+      constructor
+      · rintro ((h | h) | (h | h))
+        · exact Or.inr (Or.inl (by rw [h]))
+        · exact Or.inl (Or.inl h)
+        · have : g.unw c = g.unw r := by rw [← hidem c, h]
+          exact Or.inr (Or.inl this)
+        · exact Or.inr (Or.inl h)
+      · rintro ((h | h) | (h | h))
+        · exact Or.inl (Or.inr h)
+        · exact Or.inl (Or.inr h)
+        · exact Or.inr (Or.inr h)
+        · exact Or.inr (Or.inr h)
+    simp only [run, init] at hs
+    have hs' : run g f (stepWith g (init g r) (rootNode g r) []) = some s := hs
+    obtain ⟨r2, X, hr2, ha1, ha2⟩ := run_sim f (stepWith g (init g r) (rootNode g r) [])
+      (stepWith g (init g (g.unw r)) (rootNode g (g.unw r)) [])
+      (by
+        have := (expand_seenEq (g.kids r) _ _ hseen).2.2
+        simpa [init, rootNode, plainNode, hk] using this)
+      (by
+        have := (expand_seenEq (g.kids r) _ _ hseen).2.1
+        simpa [init, rootNode, plainNode, hk] using this)
+      s hs'
+    refine ⟨(expand g [r, g.unw r] (g.kids r)).preds, X, by simpa [init, rootNode, plainNode] using ha1, ?_⟩
+    have hp := (expand_seenEq (g.kids r) _ _ hseen).1
+    simp only [build, run, init]
+    show Option.map State.adds (run g f (stepWith g (init g (g.unw r)) (rootNode g (g.unw r)) [])) = _
+    rw [hr2]
+    simp only [Option.map_some, ha2]
+    simp [init, rootNode, plainNode, hk, hp]
+
 end Typelib.C09
